@@ -10,6 +10,16 @@ type Job struct {
 	Mode   string // hostile | wellbehaved
 	Driver string // "" (contracts) | sim | rel | frames | tables | alloc
 	Sim    bool   // prove against the master JSON transducer (@sim clauses active)
+	Only   string // restrict to one obligation kind without invariant inference (e.g. "frame")
+}
+
+func framesOnly(keys ...string) []Job {
+	out := hostile(keys...)
+	for i := range out {
+		out[i].Only = "frame"
+		out[i].Driver = "frames"
+	}
+	return out
 }
 
 func simJobs(keys ...string) []Job {
@@ -62,7 +72,7 @@ func hostile(keys ...string) []Job {
 }
 
 var machineFns = []string{"skipValue", "skipValueFast", "handleArrayValues", "handleObjectValues", "readNull", "readBool", "unescapeStringContent", "appendRemainderOfString"}
-var helperFns = []string{"countWhitespace", "skipFloatExp", "skipFloatDec", "growBytesSliceCapacity", "getu4", "unescapeUnicodeChar"}
+var helperFns = []string{"errUnexpectedByteInString", "countWhitespace", "skipFloatExp", "skipFloatDec", "growBytesSliceCapacity", "getu4", "unescapeUnicodeChar"}
 var wrapperFns = []string{"SkipValue", "SkipValueFast", "HandleArrayValues", "HandleObjectValues", "Valid", "UnescapeStringContent"}
 var tokenFns = []string{"NextToken", "NextTokenType"}
 var readerFns = []string{"ReadUint64", "ReadUint32", "ReadInt64", "ReadInt32", "ReadInt", "ReadUint", "ReadFloat64", "ReadBool", "ReadNull", "ReadStringBytes", "ReadString"}
@@ -134,6 +144,29 @@ func properties() map[string]*Property {
 			"token classes: tokclass(b) in rjv is the RFC 8259 token table numbered like the TokenType constants; the package tables tokenTypes and whitespace are read from their composite literals on every run and compared with it inside the proofs of NextToken/NextTokenType/countWhitespace (every one of the 256 entries matters to some obligation)",
 			"exclusivity: every reader's contract carries err == nil ==> tokclass(first non-whitespace byte) == its class; the classes are pairwise different constants. ReadFloat64's exclusivity rests on the assumed contract of internal/fp (its first byte is '-' or a digit) and is not part of this check",
 		},
+	}
+	ps["C16"] = &Property{ID: "C16", Level: "proof",
+		Jobs: append(framesOnly(allContractFns()...), hostile("ReadStringBytes", "ReadString", "UnescapeStringContent", "unescapeStringContent", "appendRemainderOfString",
+			"unescapeUnicodeChar", "growBytesSliceCapacity", "errUnexpectedByteInString", "getu4", "countWhitespace")...),
+		Kinds:  map[string]bool{"frame": true, "ensures": true, "inv-init": true, "inv-preserved": true, "requires@call": true},
+		Labels: []string{"C16"},
+		Extra:  []string{"global-store-scan"},
+		Assume: []string{
+			"destination and input slices do not overlap (a destination overlapping the input would itself be a write to the input)",
+			"handlers do not write the input (user code)",
+		},
+		Subset: "(a) no function under contract stores into an input region (every store and in-place append has a frame obligation), and no function of the module stores into package-level memory; (b) destination-taking functions return, on success, a slice whose prefix is the destination's prior contents (ReadStringBytes, UnescapeStringContent, unescapeStringContent, appendRemainderOfString, unescapeUnicodeChar, growBytesSliceCapacity); (c) every returned string is the result of a []byte->string conversion. NOT covered: equality of the appended suffix with the empty-destination output and independence from scratch-buffer contents (2-safety, see C14 for the stack), and value trees (reason as for C15)",
+	}
+	ps["C18"] = &Property{ID: "C18", Level: "proof",
+		Jobs:   framesOnly(allContractFns()...),
+		Kinds:  map[string]bool{"frame": true},
+		Extra:  []string{"global-store-scan"},
+		Assume: []string{
+			"M-frame (not machine-checked): calls whose write footprints are disjoint and that read only immutable shared memory are race-free and sequentially equivalent (frame rule); interleavings are not explored and nothing is run under the race detector",
+			"package-level tables and error sentinels are written only by package initialisation, which happens before main",
+			"sync.Pool (a field of the caller-owned ValueReader) is safe for concurrent use",
+		},
+		Subset: "the classical sufficient condition for race freedom of independent calls: every function of rjson and internal/fp (all of them, found by an SSA scan, not only those under contract) never stores into package-level memory, and every store of the functions under contract goes to a local, to freshly allocated memory, or to memory reachable from its own non-input parameters",
 	}
 	ps["C01"] = &Property{ID: "C01", Level: "proof",
 		Jobs:   append(simJobs("skipValue", "skipFloatDec", "skipFloatExp", "Valid"), hostile("countWhitespace")...),
